@@ -1,5 +1,5 @@
 # replay of a bounded stand-in violation: re-run native/c01_backends.py
 import sys
-print('fock lossChannel(T=0.5, cutoff=3): the Kraus operators are not complete, sum E^+E has diagonal [1.0, 1.0, 0.75] (trace lost without any truncation)')
+print("MeasureHeterodyne(0.2, -0.3) | q[0] of 2 (mixed) on gaussian: ('quad', 1, 0.0) = [0.6456, 0.7226], the documented action gives [0.6416, 0.7229]")
 print('REPLAY-VIOLATION')
 sys.exit(1)
